@@ -535,8 +535,28 @@ def check(run: Run) -> None:
         run.check("C08.R1", "the page is decoded tolerantly (errors=ignore/replace)", tolerant, "walk_zorg_page", c,
                   f"`{ast.unparse(c)[:80]}` decodes the page strictly: a file with bytes that are not valid in the chosen encoding (Latin-1 text, a truncated multi-byte sequence, a stray 0xFF) "
                   "makes compile / db create / db reindex die with UnicodeDecodeError", file=FILE_A, node=c)
-    reg = any(isinstance(c, ast.Call) and isinstance(c.func, ast.Attribute) and c.func.attr == "addErrorListener" for c in ast.walk(fa_flat.node))
-    run.check("C08.R5", "the error manager is registered with the parser", reg, "walk_zorg_page", "addErrorListener", "the ErrorManager is not registered as an error listener", file=FILE_A, node=fa.node)
+    # typestate of the parser's listener set: on every path the error manager is (still) registered when the parse starts
+    n_parse = 0
+    for p in enum_paths(fa_flat.node):
+        registered = False
+        seen_parse = False
+        for ev in p.events:
+            node = ev[1] if ev[0] in ("stmt", "assume", "iter", "with") else None
+            if node is None:
+                continue
+            calls = sorted([c for c in ast.walk(node) if isinstance(c, ast.Call) and isinstance(c.func, ast.Attribute)], key=lambda c: (c.lineno, c.col_offset))
+            for c in calls:
+                if c.func.attr == "addErrorListener":
+                    registered = True
+                elif c.func.attr in ("removeErrorListeners", "removeErrorListener"):
+                    registered = False
+                elif c.func.attr == "prog" and not seen_parse:
+                    seen_parse = True
+                    n_parse += 1
+                    run.check("C08.R5", "the error manager is registered with the parser when the parse starts", registered, "walk_zorg_page", "listener set at parser.prog()",
+                              "on a path of walk_zorg_page the parser's error listeners are removed after (or without) registering the ErrorManager: syntax errors are reported to nobody, "
+                              "`errors` stays empty, the page is not flagged and a broken page is indexed partially" , file=FILE_A, node=c, detail=dict(path=p.describe(12)))
+    run.floor("paths of walk_zorg_page that start the parse", n_parse, 2)
     run.units = dict(slice_functions=len(funcs), typestate=ts.stats, obligations_local=n_ob)
     run.trusted = ["totality of the ANTLR runtime itself", "ParseTreeWalker contract"]
     run.assumptions += ["lexer errors (characters outside the alphabet) are outside the statement, which speaks of parser-reported errors"]
